@@ -551,6 +551,8 @@ Definition p_ssd_main : list instr := [
   (*71*) IJmp 46;
   (*72*) IUnlock IM;
   (*73*) IEnd ].
+Definition SM2 := 42.  Definition SC2 := 42.  Definition COMPLETE2 := 42.
+Definition C5 := 45.  Definition C6 := 46.  Definition C2 := 52.  Definition C3 := 53.  Definition C4 := 54.
 Definition p_pref_owner : list instr := [
   (* 0*) ILock OWN;
   (* 1*) ILock TM2;
@@ -579,26 +581,25 @@ Definition p_pref_owner : list instr := [
   (*24*) IUnlock SM;
   (*25*) ILd FILEV;
   (*26*) IOut 3;
-  (*27*) IBrVar ISRUN 0 33;
-  (*28*) ILd ONEV;
-  (*29*) ILock IMS;
-  (*30*) IPushR INQS;
-  (*31*) IUnlock IMS;
-  (*32*) IInc PIPES;
-  (*33*) ILock TM2;
-  (*34*) ILd RUN2;
-  (*35*) IUnlock TM2;
-  (*36*) IBrReg 0 42;
-  (*37*) IRst 9;
-  (*38*) IJoinI 1;
-  (*39*) ILock TM2;
-  (*40*) IWr RUN2 0;
-  (*41*) IUnlock TM2;
-  (*42*) ILock IMS;
-  (*43*) IBrEmpty INQS 44;
-  (*44*) IUnlock IMS;
-  (*45*) IUnlock OWN;
-  (*46*) IEnd ].
+  (*27*) ILd C5;
+  (*28*) ILock IMS;
+  (*29*) IPushR INQS;
+  (*30*) IUnlock IMS;
+  (*31*) IInc PIPES;
+  (*32*) ILock TM2;
+  (*33*) ILd RUN2;
+  (*34*) IUnlock TM2;
+  (*35*) IBrReg 0 41;
+  (*36*) IRst 9;
+  (*37*) IJoinI 1;
+  (*38*) ILock TM2;
+  (*39*) IWr RUN2 0;
+  (*40*) IUnlock TM2;
+  (*41*) ILock IMS;
+  (*42*) IBrEmpty INQS 43;
+  (*43*) IUnlock IMS;
+  (*44*) IUnlock OWN;
+  (*45*) IEnd ].
 Definition p_pref_saver : list instr := [
   (* 0*) ILock TM2;
   (* 1*) IWr RUN2 1;
@@ -606,7 +607,7 @@ Definition p_pref_saver : list instr := [
   (* 3*) ISignal TC2;
   (* 4*) IWr ISRUN 1;
   (* 5*) IWr TERMV 0;
-  (* 6*) IBrVar TERMV 1 23;
+  (* 6*) IBrVar TERMV 1 37;
   (* 7*) IPoll PIPES INQS 6;
   (* 8*) IWr PIPES 0;
   (* 9*) ILock IMS;
@@ -614,17 +615,217 @@ Definition p_pref_saver : list instr := [
   (*11*) IUnlock IMS;
   (*12*) IBrEmpty LOCS 6;
   (*13*) IPop LOCS;
-  (*14*) IRunW FILEV 16 21;
-  (*15*) IJmp 12;
-  (*16*) ILock SM;
-  (*17*) IWr COMPLETE 1;
-  (*18*) ISignal SC;
-  (*19*) IUnlock SM;
-  (*20*) IJmp 12;
-  (*21*) IWr TERMV 1;
+  (*14*) IRunW FILEV 18 35;
+  (*15*) IBrVar FILEV 5 28;
+  (*16*) IBrVar FILEV 6 23;
+  (*17*) IJmp 12;
+  (*18*) ILock SM;
+  (*19*) IWr COMPLETE 1;
+  (*20*) ISignal SC;
+  (*21*) IUnlock SM;
   (*22*) IJmp 12;
-  (*23*) IWr ISRUN 0;
-  (*24*) IEnd ].
+  (*23*) ILock SM2;
+  (*24*) IWr COMPLETE2 1;
+  (*25*) ISignal SC2;
+  (*26*) IUnlock SM2;
+  (*27*) IJmp 12;
+  (*28*) IBrVar ISRUN 0 12;
+  (*29*) ILd ONEV;
+  (*30*) ILock IMS;
+  (*31*) IPushR INQS;
+  (*32*) IUnlock IMS;
+  (*33*) IInc PIPES;
+  (*34*) IJmp 12;
+  (*35*) IWr TERMV 1;
+  (*36*) IJmp 12;
+  (*37*) IWr ISRUN 0;
+  (*38*) IEnd ].
+
+(* ---- round 8 (generated by gen_progs_r8.py).  FilePreferenceSaverThread::Join now queues a callback (payload 5) that
+   calls SelectServer::Terminate() on the saver thread (fix 05); "prefs2": a second thread (2) calls Synchronize()
+   concurrently with the owner (its local mutex/condition/flag are 42, its completion callback has payload 6);
+   "prefsj": Start() immediately followed by Join(); "term": SelectServer::Run()/Terminate(): thread 0 queues a callback
+   that starts producer 1 and calls Run(); producer 1: Execute(2), Terminate(), Execute(3), Execute(4); after Run()
+   returns the owner joins it, queues a callback that starts producer 2 (Execute(2), Terminate()), calls Run() again,
+   joins, and destroys the SelectServer.  The saver/loop distinguish callbacks by payload: 0 = completion / start a
+   producer, 1 = SetTerminate, others plain (variables 45, 46, 52-54 hold the constants 5, 6, 2-4). *)
+Definition ISRUNA := 60.  Definition TERMA := 61.  Definition LASTV := 62.
+Definition p_term_owner : list instr := [
+  (* 0*) ILd ZEROV;
+  (* 1*) ILock IM;
+  (* 2*) IPushR INQ;
+  (* 3*) IUnlock IM;
+  (* 4*) IInc PIPE;
+  (* 5*) IWr ISRUNA 1;
+  (* 6*) IWr TERMA 0;
+  (* 7*) IBrVar TERMA 1 21;
+  (* 8*) IPoll PIPE INQ 7;
+  (* 9*) IWr PIPE 0;
+  (*10*) ILock IM;
+  (*11*) ISwap INQ LOC;
+  (*12*) IUnlock IM;
+  (*13*) IBrEmpty LOC 7;
+  (*14*) IPop LOC;
+  (*15*) IRunW LASTV 17 19;
+  (*16*) IJmp 13;
+  (*17*) ICreateI 1;
+  (*18*) IJmp 13;
+  (*19*) IWr TERMA 1;
+  (*20*) IJmp 13;
+  (*21*) IWr ISRUNA 0;
+  (*22*) IRst 9;
+  (*23*) IJoinI 1;
+  (*24*) ILd ZEROV;
+  (*25*) ILock IM;
+  (*26*) IPushR INQ;
+  (*27*) IUnlock IM;
+  (*28*) IInc PIPE;
+  (*29*) IWr ISRUNA 1;
+  (*30*) IWr TERMA 0;
+  (*31*) IBrVar TERMA 1 45;
+  (*32*) IPoll PIPE INQ 31;
+  (*33*) IWr PIPE 0;
+  (*34*) ILock IM;
+  (*35*) ISwap INQ LOC;
+  (*36*) IUnlock IM;
+  (*37*) IBrEmpty LOC 31;
+  (*38*) IPop LOC;
+  (*39*) IRunW LASTV 41 43;
+  (*40*) IJmp 37;
+  (*41*) ICreateI 1;
+  (*42*) IJmp 37;
+  (*43*) IWr TERMA 1;
+  (*44*) IJmp 37;
+  (*45*) IWr ISRUNA 0;
+  (*46*) IRst 9;
+  (*47*) IJoinI 2;
+  (*48*) ILock IM;
+  (*49*) IBrEmpty INQ 56;
+  (*50*) ISwap INQ LOC;
+  (*51*) IUnlock IM;
+  (*52*) IBrEmpty LOC 48;
+  (*53*) IPop LOC;
+  (*54*) IRunW LASTV 52 52;
+  (*55*) IJmp 52;
+  (*56*) IUnlock IM;
+  (*57*) IEnd ].
+Definition p_term_p1 : list instr := [
+  (* 0*) ILd C2;
+  (* 1*) ILock IM;
+  (* 2*) IPushR INQ;
+  (* 3*) IUnlock IM;
+  (* 4*) IInc PIPE;
+  (* 5*) IBrVar ISRUNA 0 11;
+  (* 6*) ILd ONEV;
+  (* 7*) ILock IM;
+  (* 8*) IPushR INQ;
+  (* 9*) IUnlock IM;
+  (*10*) IInc PIPE;
+  (*11*) ILd C3;
+  (*12*) ILock IM;
+  (*13*) IPushR INQ;
+  (*14*) IUnlock IM;
+  (*15*) IInc PIPE;
+  (*16*) ILd C4;
+  (*17*) ILock IM;
+  (*18*) IPushR INQ;
+  (*19*) IUnlock IM;
+  (*20*) IInc PIPE;
+  (*21*) IEnd ].
+Definition p_term_p2 : list instr := [
+  (* 0*) ILd C2;
+  (* 1*) ILock IM;
+  (* 2*) IPushR INQ;
+  (* 3*) IUnlock IM;
+  (* 4*) IInc PIPE;
+  (* 5*) IBrVar ISRUNA 0 11;
+  (* 6*) ILd ONEV;
+  (* 7*) ILock IM;
+  (* 8*) IPushR INQ;
+  (* 9*) IUnlock IM;
+  (*10*) IInc PIPE;
+  (*11*) IEnd ].
+Definition p_pref2_owner : list instr := [
+  (* 0*) ILock OWN;
+  (* 1*) ILock TM2;
+  (* 2*) IBrVar RUN2 1 7;
+  (* 3*) ICreateI 1;
+  (* 4*) IBrVar RUN2 1 7;
+  (* 5*) IWait TC2 TM2;
+  (* 6*) IJmp 4;
+  (* 7*) IUnlock TM2;
+  (* 8*) ICreateI 1;
+  (* 9*) ILock SM;
+  (*10*) ILd ZEROV;
+  (*11*) ILock IMS;
+  (*12*) IPushR INQS;
+  (*13*) IUnlock IMS;
+  (*14*) IInc PIPES;
+  (*15*) IBrVar COMPLETE 1 18;
+  (*16*) IWait SC SM;
+  (*17*) IJmp 15;
+  (*18*) IUnlock SM;
+  (*19*) IRst 9;
+  (*20*) IJoinI 2;
+  (*21*) ILd C5;
+  (*22*) ILock IMS;
+  (*23*) IPushR INQS;
+  (*24*) IUnlock IMS;
+  (*25*) IInc PIPES;
+  (*26*) ILock TM2;
+  (*27*) ILd RUN2;
+  (*28*) IUnlock TM2;
+  (*29*) IBrReg 0 35;
+  (*30*) IRst 9;
+  (*31*) IJoinI 1;
+  (*32*) ILock TM2;
+  (*33*) IWr RUN2 0;
+  (*34*) IUnlock TM2;
+  (*35*) ILock IMS;
+  (*36*) IBrEmpty INQS 37;
+  (*37*) IUnlock IMS;
+  (*38*) IUnlock OWN;
+  (*39*) IEnd ].
+Definition p_pref2_helper : list instr := [
+  (* 0*) ILock SM2;
+  (* 1*) ILd C6;
+  (* 2*) ILock IMS;
+  (* 3*) IPushR INQS;
+  (* 4*) IUnlock IMS;
+  (* 5*) IInc PIPES;
+  (* 6*) IBrVar COMPLETE2 1 9;
+  (* 7*) IWait SC2 SM2;
+  (* 8*) IJmp 6;
+  (* 9*) IUnlock SM2;
+  (*10*) IEnd ].
+Definition p_prefj_owner : list instr := [
+  (* 0*) ILock OWN;
+  (* 1*) ILock TM2;
+  (* 2*) IBrVar RUN2 1 7;
+  (* 3*) ICreateI 1;
+  (* 4*) IBrVar RUN2 1 7;
+  (* 5*) IWait TC2 TM2;
+  (* 6*) IJmp 4;
+  (* 7*) IUnlock TM2;
+  (* 8*) ILd C5;
+  (* 9*) ILock IMS;
+  (*10*) IPushR INQS;
+  (*11*) IUnlock IMS;
+  (*12*) IInc PIPES;
+  (*13*) ILock TM2;
+  (*14*) ILd RUN2;
+  (*15*) IUnlock TM2;
+  (*16*) IBrReg 0 22;
+  (*17*) IRst 9;
+  (*18*) IJoinI 1;
+  (*19*) ILock TM2;
+  (*20*) IWr RUN2 0;
+  (*21*) IUnlock TM2;
+  (*22*) ILock IMS;
+  (*23*) IBrEmpty INQS 24;
+  (*24*) IUnlock IMS;
+  (*25*) IUnlock OWN;
+  (*26*) IEnd ].
 
 Definition P : programs := fun id =>
   match id with
@@ -636,6 +837,7 @@ Definition P : programs := fun id =>
   | 14 => p_per_owner | 15 => p_per_thread
   | 16 => p_pool_owner | 17 => p_pool_worker_a | 18 => p_pool_worker_b
   | 19 => p_lock_owner | 20 => p_lock_cont | 21 => p_ssd_main | 22 => p_pref_owner | 23 => p_pref_saver
+  | 24 => p_term_owner | 25 => p_term_p1 | 26 => p_term_p2 | 27 => p_pref2_owner | 28 => p_pref2_helper | 29 => p_prefj_owner
   | _ => []
   end.
 
@@ -765,7 +967,26 @@ Definition init_ssd (lims rs : list nat) (k : nat) : state :=
               | _ => if (101 <=? x) && (x <? 101 + length lims) then nth (x - 101) rs 0 else 0
               end).
 
+Definition cvars (x : nat) : nat :=
+  if Nat.eqb x ONEV then 1 else if Nat.eqb x C5 then 5 else if Nat.eqb x C6 then 6
+  else if Nat.eqb x C2 then 2 else if Nat.eqb x C3 then 3 else if Nat.eqb x C4 then 4 else 0.
+
 Definition init_prefs : state :=
   base_state 2
     (fun t => match t with 0 => mk_thread 22 Fresh 0 | 1 => mk_thread 23 NotStarted 0 | _ => dummy end)
-    (fun x => if Nat.eqb x ONEV then 1 else 0) (fun _ => 0).
+    cvars (fun _ => 0).
+
+Definition init_prefs2 : state :=
+  base_state 3
+    (fun t => match t with 0 => mk_thread 27 Fresh 0 | 1 => mk_thread 23 NotStarted 0
+                         | 2 => mk_thread 28 NotStarted 0 | _ => dummy end)
+    cvars (fun _ => 0).
+Definition init_prefsj : state :=
+  base_state 2
+    (fun t => match t with 0 => mk_thread 29 Fresh 0 | 1 => mk_thread 23 NotStarted 0 | _ => dummy end)
+    cvars (fun _ => 0).
+Definition init_term : state :=
+  base_state 3
+    (fun t => match t with 0 => mk_thread 24 Fresh 0 | 1 => mk_thread 25 NotStarted 0
+                         | 2 => mk_thread 26 NotStarted 0 | _ => dummy end)
+    cvars (fun _ => 0).
